@@ -548,7 +548,7 @@ pub fn generate(thorough: bool, rng: &mut Rng, ops: &mut Vec<String>, stats: &mu
         ops.push(format!("c01 coalesce {}", locs.join(",")));
     }
     // end to end
-    let n_e2e = if thorough { 700 } else { 70 };
+    let n_e2e = if thorough { 1500 } else { 150 };
     for i in 0..n_e2e {
         let cfg = gen_cfg(rng, stats);
         let n = 1 + rng.below(6) as usize;
